@@ -49,6 +49,8 @@ def run_replay(rep):
         return oracle_text.c18_checksum(rep["line"], rep["lineno"])
     if kind == "idempotent":
         return oracle_text.c18_idempotent(rep["line"])
+    if kind == "idempotent_seq":
+        return oracle_text.c18_idempotent_seq(rep["lines"])
     if kind == "reader":
         return oracle_text.c19_reader(rep["params"])
     if kind == "stream":
